@@ -1803,6 +1803,12 @@ collectionLoop:
 				continue collectionLoop
 			}
 
+			// The limit, offset and order select which items are aggregated, they must match too.
+			if !reflect.DeepEqual(target.limit, potentialMatchingTarget.limit) ||
+				!reflect.DeepEqual(target.order, potentialMatchingTarget.order) {
+				continue collectionLoop
+			}
+
 			if !target.filter.HasValue() && potentialMatchingTarget.filter.HasValue() {
 				continue collectionLoop
 			}
